@@ -97,7 +97,7 @@ def check(ob, facts, timeout_ms=10000, use_cvc5=True, extra=()):
         full_goal = ob.goal
         ob.goal = reduced
         try:
-            st = _check(ob, facts, min(timeout_ms, 5000), False, extra)
+            st = _check(ob, facts, min(timeout_ms, 5000), False, extra, refute=False)
         finally:
             ob.goal = full_goal
         if st == "unsat":
@@ -107,7 +107,7 @@ def check(ob, facts, timeout_ms=10000, use_cvc5=True, extra=()):
     if any(h.get_id() in LET_DEFS for h in ob.hyps):
         full = ob.hyps
         ob.hyps = [h for h in full if h.get_id() not in LET_DEFS]
-        st = _check(ob, facts, min(timeout_ms, 5000), False, extra)
+        st = _check(ob, facts, min(timeout_ms, 5000), False, extra, refute=False)
         ob.hyps = full
         if st == "unsat":
             ob.backend += " (let-definitions hidden)"
@@ -115,7 +115,7 @@ def check(ob, facts, timeout_ms=10000, use_cvc5=True, extra=()):
     return _check(ob, facts, timeout_ms, use_cvc5, extra)
 
 
-def _check(ob, facts, timeout_ms=10000, use_cvc5=True, extra=()):
+def _check(ob, facts, timeout_ms=10000, use_cvc5=True, extra=(), refute=True):
     t0 = time.time()
     try:
         if z3.is_true(z3.simplify(ob.goal)):
@@ -125,11 +125,11 @@ def _check(ob, facts, timeout_ms=10000, use_cvc5=True, extra=()):
     except z3.Z3Exception:
         pass
     # portfolio over random seeds: an unstable query that wanders off under one seed is usually immediate under another, so the
-    # budget is spent as 1/6 + 1/6 + 1/6 + 1/2 with different seeds instead of one long run (the verdict is the first definite one)
+    # budget is spent as 40% + 15% + 15% + 30% with different seeds instead of one long run (the verdict is the first definite one)
     r = z3.unknown
-    for share, seed in ((6, 0), (6, 7), (6, 23), (2, 101)):
+    for share, seed in ((0.4, 0), (0.15, 7), (0.15, 23), (0.3, 101)):
         s = z3.Solver()
-        s.set("timeout", max(500, timeout_ms // share))
+        s.set("timeout", max(500, int(timeout_ms * share)))
         s.set("random_seed", seed)
         if seed:
             s.set("smt.random_seed", seed)
@@ -160,12 +160,12 @@ def _check(ob, facts, timeout_ms=10000, use_cvc5=True, extra=()):
             if r2 in ("unsat", "sat"):
                 ob.status = r2
                 ob.backend = "cvc5-1.0.3"
-        if ob.status == "unknown":
+        if ob.status == "unknown" and refute:
             m = refute_numerically(ob, facts)
             if m is not None:
                 ob.status, ob.model = "sat", m
                 ob.backend = "numeric-sampling (random floating point inputs satisfying every hypothesis; goal evaluated false, tolerance 1e-6)"
-        if ob.status == "unknown":
+        if ob.status == "unknown" and refute:
             m = refute_by_sampling(ob, facts)
             if m is not None:
                 ob.status, ob.model = "sat", m
@@ -286,7 +286,7 @@ def refute_by_sampling(ob, facts, tries=12, timeout_ms=3000, seed=0, budget_s=40
             continue
         g = ob.goal
         insts = [g]
-        if z3.is_quantifier(g) and g.is_forall():
+        if z3.is_quantifier(g) and g.is_forall() and all(g.var_sort(j) in (z3.IntSort(), z3.RealSort()) for j in range(g.num_vars())):
             insts = [z3.substitute_vars(g.body(), *[z3.IntVal(v) if g.var_sort(g.num_vars() - 1 - j) == z3.IntSort() else z3.RealVal(v)
                                                     for j in range(g.num_vars())]) for v in (0, 1, 2)]
         elif z3.is_and(g):
